@@ -467,6 +467,13 @@ def run(ctx):
     quick = ctx.quick()
     build_lib(ctx)
     proofs_ok = coq_properties(ctx)
+    if proofs_ok and not quick:
+        # independent re-check of the compiled property file and everything it depends on
+        rc, o, e = sh(['coqchk', '-silent', '-o', '-Q', os.path.join(VERIF, 'coq'), 'Gst', 'Gst.C11.Properties'], timeout=1500)
+        ctx.cov['coqchk'] = 'ok' if rc == 0 else ('failed: ' + (o + e)[-400:])
+        if rc != 0:
+            ctx.log('coqchk failed', (o + e)[-600:]); proofs_ok = False
+            ctx.proof_errors = getattr(ctx, 'proof_errors', []) + ['coqchk: ' + (o + e)[-300:]]
     runner = build_runner(ctx)
     exe = build_harness(ctx, 'C11')
     if runner is None or exe is None:
@@ -639,7 +646,7 @@ def load_corpus(ctx):
         elif l and not l.startswith('#') and meta:
             c = sx_parse(l)
             out.append(dict(case=c, rtype=meta[0], site=meta[1], quals=[q for q in meta[2].split(':') if q] if len(meta) > 2 else [],
-                            size=0, kind={1: 'dense', 2: 'sparse', 3: 'vec', 4: 'solve'}[c[0]], op=(c[4] if c[0] == 1 else c[3] if c[0] == 2 else c[1] if c[0] == 3 else c[2]),
+                            size=-1, kind={1: 'dense', 2: 'sparse', 3: 'vec', 4: 'solve'}[c[0]], op=(c[4] if c[0] == 1 else c[3] if c[0] == 2 else c[1] if c[0] == 3 else c[2]),
                             st=(c[2] if c[0] == 1 else 3 + c[2] if c[0] == 2 else -1)))
             meta = None
     return out
